@@ -9,7 +9,7 @@
 (* must be exactly the lexemes, each with the type of its class, followed  *)
 (* by the end-of-input marker.                                             *)
 (***************************************************************************)
-EXTENDS Lexer, Json, TLC
+EXTENDS Lexer, Json, TLC, Held
 VARIABLE l
 Trace == ndJsonDeserialize("trace.ndjson")
 
@@ -30,7 +30,7 @@ Init == l = 1
 Next ==
   /\ l <= Len(Trace)
   /\ l' = l + 1
-  /\ LET f == Fails(Trace[l]) IN f = "" \/ PrintT("VERIF-FAIL " \o ToString(l) \o " " \o f)
+  /\ LET f == Fails(Trace[l]) IN Report(l, f, Trace[l])
 Spec == Init /\ [][Next]_l
 Accepted == TLCGet("stats").diameter - 1 = Len(Trace)
 =============================================================================
